@@ -697,6 +697,17 @@ def join_deg(a, b):
     return None
 
 
+_WT_ZERO = ((), ())
+
+
+def _join_wt(a, b):
+    if a.wt is None and b.wt is None:
+        return None
+    wa = a.wt if a.wt is not None else (_WT_ZERO if "MU" not in a.prov else None)
+    wb = b.wt if b.wt is not None else (_WT_ZERO if "MU" not in b.prov else None)
+    return wa if wa == wb else None
+
+
 def join_val(a: Val, b: Val) -> Val:
     if a is b or a == b:
         return a
@@ -719,7 +730,7 @@ def join_val(a: Val, b: Val) -> Val:
             prov=a.prov | b.prov,
             sym=a.sym if a.sym == b.sym else None,
             const=a.const if (a.const == b.const and type(a.const) is type(b.const)) else None,
-            wt=a.wt if a.wt == b.wt else None,
+            wt=_join_wt(a, b),
         )
     if isinstance(a, Bool) and isinstance(b, Bool):
         return Bool(a.tv if a.tv == b.tv else None, a.prov | b.prov, a.sym if a.sym == b.sym else None)
